@@ -1,9 +1,15 @@
 (* C20 - Genesis export and re-import preserves every live position and counter.
    Property theorems only.  [the_table] is REGENERATED from the Go source on every check
    (Gen/GenesisTable.v); the finite theorems are by computation over it, the lifting lemmas are
-   generic (Proofs/GenesisProofs.v).  On the unchanged tree the property is false for the
-   (module, prefix) pairs listed in [known_holes] (12 classes kf_C20 1..12); each class has a
-   [_refuted] statement, and the positive theorems are stated on the complement. *)
+   generic (Proofs/GenesisProofs.v).  The property is false for the (module, prefix) pairs listed in
+   [known_holes] (classes kf_C20 2..11 and 13); each class has a [_refuted] statement, and the
+   positive theorems are stated on the complement.
+   fixed: property=C20 PENDING collector ExportGenesis emitted zero-valued net-fee records (class 1)
+   fixed: property=C20 PENDING collector InitGenesis dropped the lookup table, the auction mapping and
+          the denoms mapping when the validating lookup setter failed (class 12)
+   Both classes and their [_refuted] theorems are deleted; their witnesses are the regression
+   examples [c20_netfee_regression] / [c20_collector_import_regression] below and the forced cases
+   0 and 1 of the behavioural run. *)
 From Coq Require Import String.
 From Comdex Require Import Lib.Base Lib.GenesisTypes Gen.GenesisTable Model.Genesis Proofs.GenesisProofs.
 Open Scope Z_scope.
@@ -27,8 +33,8 @@ Print Assumptions c20_roundtrip_table_partial.
 (* lifted: for every module state s (any content, hence every reachable one) whose derived indexes
    are consistent with their records, InitGenesis (ExportGenesis s) has exactly the entries of s
    under every live non-counter prefix outside the known-finding classes.  [roundtrip] is the
-   success path of InitGenesis; prefixes whose import can be cut short by a failing validating
-   setter are excluded by [survives] (class 12). *)
+   success path of InitGenesis; prefixes whose import can be cut short by a setter that validates
+   against other state are excluded by [survives] (class 13). *)
 Theorem c20_roundtrip_partial : forall p dv s,
   In p prefixes -> live p = true -> p_counter p = false ->
   kf_C20_any (p_mod p) (p_byte p) = false ->
@@ -76,17 +82,6 @@ Print Assumptions c20_fresh_ids.
 Theorem c20_known_holes_refuted : forallb hole_is_hole known_holes = true.
 Proof. exact holes_are_holes. Qed.
 Print Assumptions c20_known_holes_refuted.
-
-(* class 1: the collector's bulk reader iterates the net-fee prefix without ever reading the
-   value: the export holds one zero record per entry, and a state with a net fee does not survive *)
-Theorem c20_netfee_refuted : forall dv,
-  classify the_table "collector" 8 = CovKeysOnly /\
-  exists s, get (roundtrip dv the_table "collector" s) 8 <> get s 8.
-Proof.
-  intros dv. split; [vm_compute; reflexivity|].
-  apply keysonly_refuted; vm_compute; tauto.
-Qed.
-Print Assumptions c20_netfee_refuted.
 
 (* classes 3, 6, 8, 11 (and the non-counter prefixes of 7): a live prefix that no genesis field
    carries comes back empty *)
@@ -147,14 +142,36 @@ Theorem c20_maxid_refuted :
 Proof. repeat split; try (vm_compute; reflexivity). apply max_restore_reissues. Qed.
 Print Assumptions c20_maxid_refuted.
 
-(* class 12: the collector lookup table is imported through a setter that can return an error, on
-   which InitGenesis returns; the auction mapping and the denoms mapping come after it *)
-Theorem c20_guarded_import_refuted :
-  at_risk the_table "collector" 1 = true /\ at_risk the_table "collector" 5 = true /\
-  at_risk the_table "collector" 7 = true /\ at_risk the_table "esm" 4 = true /\
+(* class 13: the esm kill switches are imported through a setter that validates against the asset
+   module and can return an error, on which InitGenesis returns; the user deposits and the cool-off
+   data come after it.  (The collector rows of the former class 12 are no longer at risk.) *)
+Theorem c20_esm_guarded_import_refuted :
+  at_risk the_table "esm" 4 = true /\ at_risk the_table "esm" 5 = true /\
+  at_risk the_table "esm" 7 = true /\ at_risk the_table "esm" 3 = false /\
   at_risk the_table "locker" 21 = false /\ at_risk the_table "vault" 16 = false.
 Proof. vm_compute. repeat split. Qed.
-Print Assumptions c20_guarded_import_refuted.
+Print Assumptions c20_esm_guarded_import_refuted.
+
+(* ---------------- regressions of the repaired findings ---------------- *)
+(* C20-F1 (fixed): the net-fee prefix is exported WITH its values and imported from the same field;
+   the setter that imports it rejects on a condition over the item alone, so nothing is at risk;
+   the witness state of the former c20_netfee_refuted (one net fee) now survives *)
+Example c20_netfee_regression :
+  classify the_table "collector" 8 = CovDirect /\ at_risk the_table "collector" 8 = false /\
+  kf_C20_any "collector" 8 = false /\
+  forall dv, get (roundtrip dv the_table "collector" [(8, [(1, 1)])]) 8 = [(1, 1)].
+Proof. repeat split; vm_compute; reflexivity. Qed.
+
+(* C20-F12 (fixed): no prefix of the collector is at risk any more; lookup table (1), asset
+   collector mapping (3), auction mapping (5) and denoms mapping (7) survive, each from its own field *)
+Example c20_collector_import_regression :
+  forallb (fun b => negb (at_risk the_table "collector" b) && negb (kf_C20_any "collector" b) &&
+                    match classify the_table "collector" b with CovDirect => true | _ => false end)
+          [1; 3; 5; 7; 8] = true /\
+  forall dv,
+    let s := [(1, [(11, 5)]); (3, [(12, 6)]); (5, [(13, 7)]); (7, [(14, 8)]); (8, [(15, 404000)])] in
+    forallb (fun b => entries_eqb (get (roundtrip dv the_table "collector" s) b) (get s b)) [1; 3; 5; 7; 8] = true.
+Proof. split; [vm_compute; reflexivity|intros dv; vm_compute; reflexivity]. Qed.
 
 (* ---------------- non-vacuity ---------------- *)
 (* a locker store with two lockers, a lookup table and a user mapping round-trips on every covered
